@@ -73,9 +73,20 @@ func streamOK(r *sys.Result, start, stop uint64) string {
 	return ""
 }
 
-func scenario(seed uint64, idx int, tier string, root string) []runRes {
+// scenarioX runs one scenario and returns, with its results, the encoding of the world and request it used: failures
+// are reported as "SCEN seed idx tier <encoding>", a line that keeps its meaning when the generators change.
+func scenarioX(s common.Scen, root string) ([]runRes, string) {
+	var enc string
+	rs := scenario(s.Seed, s.Idx, s.Tier, root, s.Fixed, &enc)
+	return rs, enc
+}
+
+func scenario(seed uint64, idx int, tier string, root string, fixed string, enc *string) []runRes {
 	rng := common.NewRng(seed*7919 + uint64(idx))
-	sc := sys.GenScenario(rng)
+	sc := sys.GenScenarioOr(rng, fixed)
+	if enc != nil {
+		*enc = sc.Encode()
+	}
 	w, output, start, stop, head, final, seg := sc.W, sc.Output, sc.Start, sc.Stop, sc.Head, sc.Final, sc.Seg
 	maps := w.Maps()
 	_, _ = final, seg
@@ -167,9 +178,8 @@ func main() {
 	if lines := o.ReplayLines(); lines != nil {
 		// a replay line names a scenario: "SCEN <seed> <idx> <tier>"
 		for _, l := range lines {
-			f := strings.Fields(l)
-			if len(f) >= 4 && f[0] == "SCEN" {
-				for _, r := range scenario(common.Atou(f[1]), common.Atoi(f[2]), f[3], filepath.Join(o.Out, "sys")) {
+			if psc, ok := common.ParseScen("SCEN", l); ok {
+				for _, r := range scenario(psc.Seed, psc.Idx, psc.Tier, filepath.Join(o.Out, "sys"), psc.Fixed, nil) {
 					out.Case(r.line, r.ans, r.nt)
 					for _, fl := range r.fails {
 						out.Fail(fl[0], fl[1], l)
@@ -187,6 +197,7 @@ func main() {
 	scens := o.Scens("SCEN", n)
 	n = len(scens)
 	results := make([][]runRes, n)
+	encs := make([]string, n)
 	var wg sync.WaitGroup
 	sem := make(chan struct{}, 12)
 	for i := 0; i < n; i++ {
@@ -195,7 +206,7 @@ func main() {
 		go func(i int) {
 			defer wg.Done()
 			defer func() { <-sem }()
-			results[i] = scenario(scens[i].Seed, scens[i].Idx, scens[i].Tier, filepath.Join(filepath.Join(o.Out, "sys"), fmt.Sprintf("k%d", i)))
+			results[i], encs[i] = scenarioX(scens[i], filepath.Join(filepath.Join(o.Out, "sys"), fmt.Sprintf("k%d", i)))
 		}(i)
 	}
 	wg.Wait()
@@ -206,7 +217,7 @@ func main() {
 				out.Count(c)
 			}
 			for _, fl := range r.fails {
-				out.Fail(fl[0], fl[1], scens[i].String())
+				out.Fail(fl[0], fl[1], common.Scen{Seed: scens[i].Seed, Idx: scens[i].Idx, Tier: scens[i].Tier, Fixed: encs[i]}.String())
 			}
 		}
 	}
